@@ -13,8 +13,16 @@ One executor (`World.execute`) performs abstract histories on the REAL code in a
                              while write_env runs); the process dies with a BaseException.  A crash point that is never
                              reached is no crash.
     exit                     the process ends, the in-memory environment is lost
-    fault(t, kind)           the file is removed / emptied / cut short / replaced by garbage, a directory or an
-                             unopenable object (symlink loop: the checks run as root, chmod is void)
+    fault(t, kind)           the file is removed / emptied / cut short / replaced by garbage, a directory or made
+                             unreadable THROUGH ITS PATH (`which` selects the way): a symbolic link to itself, the task
+                             directory replaced by a regular file or missing, file / directory without permissions (only
+                             when the harness does not run as root), or -- portably, the checks usually run as root --
+                             every stat / access / open of the path of the file failing with OSError(errno) for errno in
+                             SIM_ERRNOS while code of valjean runs (_Unreadable).  `absent` is a removed file or a
+                             dangling symbolic link.  All of these are the class `unreadable` / `absent` of Persist.tla.
+    longname(t, how)         task t (no history yet) gets a name longer than NAME_MAX / that makes the path longer than
+                             PATH_MAX (names are generated from parameter lists): its file can never exist nor be
+                             written, it is `unreadable` for the whole history
     read / readone(t)        read_env over all tasks / Env.from_file on one file
     session(tasks, ...)      one session of `valjean run`: RunCommand().execute(args, config) on a job file that builds
                              probe tasks (hard / soft dependencies; succeed, fail, raise; with or without output
@@ -67,6 +75,13 @@ FAULT_KINDS = ['absent', 'empty', 'garbage', 'dir', 'unreadable']
 FAULT_KINDS_ALL = FAULT_KINDS + ['partial']      # 'partial': a complete file cut short (histories executed on the code only)
 MODES = ['inplace', 'keep']                      # how one file may be written (Persist.tla allows both, file by file)
 SESSION_TIMEOUT = 30
+# ways in which the path of a file can be unusable: errno classes simulated for the paths of chosen files ...
+SIM_ERRNOS = ['EACCES', 'EPERM', 'ENAMETOOLONG', 'EIO', 'ESTALE', 'EMFILE']
+# ... and real conditions of the file system (the last two only mean something when the process is not root)
+UNREADABLE_HOW = ['link-loop', 'task-dir-is-a-file', 'no-task-dir'] + ['errno-' + e for e in SIM_ERRNOS]
+UNREADABLE_HOW_NOT_ROOT = ['mode-000', 'dir-mode-000']
+ABSENT_HOW = ['removed', 'dangling-link', 'removed']
+LONG_NAMES = ['name-max', 'path-max']
 WIDTH = 5                                        # tasks of the worlds whose logs are validated together
 FILENAME = 'valjean.env'
 VER0 = 10 ** 6      # entries carry VER0 + version: the serialized length does not depend on the version
@@ -377,6 +392,86 @@ class _OpenHooks:
         return fobj
 
 
+class _Unreadable:
+    """While active (only while code of valjean runs: a read, a write, a session), every attempt to look at or to open
+    the environment file of a chosen task BY ITS PATH fails the way the operating system makes it fail when the file
+    cannot be reached: os.stat / os.lstat / os.open / builtins.open / io.open (hence pathlib.Path.stat / exists / open,
+    os.path.exists ...) raise OSError(errno, strerror, path), os.access answers False.  Which flavour the implementation
+    uses does not matter.  The path is recognised by the name of the file (the one the harness passes as `filename`)
+    and the real path of its directory.  Nothing else is touched."""
+
+    def __init__(self, world):
+        import errno
+        self.paths = {world.path(t): getattr(errno, e) for t, e in world.sim.items()}
+        self.cache = {}
+        self.saved = None
+
+    def _errno(self, file, kwargs):
+        if kwargs.get('dir_fd') is not None or isinstance(file, int):
+            return None, None
+        try:
+            path = os.fsdecode(os.fspath(file))
+        except Exception:  # pylint: disable=broad-except
+            return None, None
+        if path in self.cache:
+            return self.cache[path], path
+        eno = None
+        if os.path.basename(path) == FILENAME:
+            try:
+                full = os.path.join(os.path.realpath(os.path.dirname(os.path.abspath(path))), FILENAME)
+                eno = self.paths.get(full)
+            except Exception:  # pylint: disable=broad-except
+                eno = None
+        self.cache[path] = eno
+        return eno, path
+
+    def _wrap(self, real, fails=True):
+        def wrapper(file, *args, **kwargs):
+            eno, path = self._errno(file, kwargs)
+            if eno is None:
+                return real(file, *args, **kwargs)
+            if not fails:
+                return False
+            raise OSError(eno, os.strerror(eno), path)
+        return wrapper
+
+    def __enter__(self):
+        if self.paths:
+            import builtins
+            import io
+            self.saved = (builtins.open, io.open, os.open, os.stat, os.lstat, os.access)
+            builtins.open = io.open = self._wrap(self.saved[0])
+            os.open = self._wrap(self.saved[2])
+            os.stat = self._wrap(self.saved[3])
+            os.lstat = self._wrap(self.saved[4])
+            os.access = self._wrap(self.saved[5], fails=False)
+        return self
+
+    def __exit__(self, *exc):
+        if self.saved is not None:
+            import builtins
+            import io
+            builtins.open, io.open, os.open, os.stat, os.lstat, os.access = self.saved
+            self.saved = None
+        return False
+
+
+def how_class(kind, how):
+    """The part of a finding key that names the damaged file: its class in Persist.tla and, for the ways of being
+    absent / unreadable added to the symbolic link loop, the way (grouped: one key per errno class)."""
+    if kind == 'unreadable' and how in LONG_NAMES:
+        return 'unreadable:name-too-long'
+    if kind == 'unreadable' and how in ('task-dir-is-a-file', 'no-task-dir'):
+        return 'unreadable:task-dir'
+    if kind == 'unreadable' and how in UNREADABLE_HOW_NOT_ROOT:
+        return 'unreadable:permissions'
+    if kind == 'unreadable' and how.startswith('errno-'):
+        return 'unreadable:' + how
+    if kind == 'absent' and how == 'dangling-link':
+        return 'absent:dangling-link'
+    return kind
+
+
 _JOB_SRC = '''"""Job file of the C14 harness: probe tasks described by a JSON file (written by conf_persist.World.session)."""
 import json
 import os
@@ -451,6 +546,11 @@ class World:
         #                          not complete (a crash: everything that went through the wrapped open, the call that
         #                          died included; a file cut short by the harness: the complete file it cut)
         self.placed = {}         # t -> the garbage the harness itself put in place of t's file
+        self.sim = {}            # t -> errno name: while code of valjean runs, every stat / access / open of the path of t's
+        #                          file fails with OSError(errno) (see _Unreadable)
+        self.how = {}            # t -> the way t's file was last made absent / unreadable (names the finding class)
+        self.stuck = {}          # t -> 'name-max' | 'path-max': the name of the task is longer than the file system accepts
+        self.links = os.path.join(self.root, '.links')       # where dangling symbolic links point to
         self.loaded = False      # the running process holds what a read returned (entries that cannot be named included)
         self.nver = 1
         self.nsession = 0
@@ -465,8 +565,23 @@ class World:
         self.kind = ''           # suffix of the finding keys ('' | 'session')
 
     # -- helpers -------------------------------------------------------------------------
+    def name(self, t):
+        return self.names[t - 1]
+
+    def dir(self, t):
+        return os.path.join(self.root, self.names[t - 1])
+
     def path(self, t):
-        return os.path.join(self.root, 't%d' % t, FILENAME)
+        return os.path.join(self.root, self.names[t - 1], FILENAME)
+
+    def dispose(self):
+        for t in range(1, self.ntasks + 1):
+            if t not in self.stuck:
+                try:
+                    os.chmod(self.dir(t), 0o755)
+                except OSError:
+                    pass
+        shutil.rmtree(self.root, ignore_errors=True)
 
     def task_of(self, file):
         """(task, real path) for a path / descriptor inside the output directory of a task, else (None, path)."""
@@ -503,8 +618,8 @@ class World:
             entry = entry0 if entry is None else entry
             self._refobj[ver] = entry
             env = Env()
-            env['t%d' % t] = entry
-            env.to_file(self.scratch, task_name='t%d' % t, fmt='pickle')
+            env[self.name(t)] = entry
+            env.to_file(self.scratch, task_name=self.name(t), fmt='pickle')
             with open(self.scratch, 'rb') as f:
                 self.ref[ver] = f.read()
             os.remove(self.scratch)
@@ -512,15 +627,27 @@ class World:
 
     def classify(self, t):
         """[kind, status, ver] of the file of task t, from what is on the disk and what the harness saw being written."""
-        p = self.path(t)
-        if os.path.islink(p):
+        import errno
+        import stat
+        if t in self.sim:
             return ['unreadable', 'WAITING', 0]
-        if os.path.isdir(p):
+        p = self.path(t)
+        try:
+            mode = os.stat(p).st_mode
+        except OSError as ex:
+            # nothing there (a dangling link included) in a directory in which a file can be created: absent;
+            # a path that cannot be walked (link loop, name too long, task directory missing / a file / unsearchable):
+            # the file can neither be read nor written
+            if ex.errno == errno.ENOENT and os.path.isdir(os.path.dirname(p)):
+                return ['absent', 'WAITING', 0]
+            return ['unreadable', 'WAITING', 0]
+        if stat.S_ISDIR(mode):
             return ['dir', 'WAITING', 0]
-        if not os.path.exists(p):
-            return ['absent', 'WAITING', 0]
-        with open(p, 'rb') as f:
-            data = f.read()
+        try:
+            with open(p, 'rb') as f:
+                data = f.read()
+        except OSError:
+            return ['unreadable', 'WAITING', 0]
         if not data:
             return ['empty', 'WAITING', 0]
         ver = self.known.get((t, data))
@@ -536,8 +663,8 @@ class World:
         # complete = the file holds exactly {name: entry} for an entry that was created for t, however it is serialized
         try:
             obj = pickle.loads(data)
-            if list(obj.keys()) == ['t%d' % t]:
-                status, ver = self._identify(t, obj['t%d' % t])
+            if list(obj.keys()) == [self.name(t)]:
+                status, ver = self._identify(t, obj[self.name(t)])
                 if ver > 0:
                     self.known[(t, data)] = ver
                     return ['full', status, ver]
@@ -550,8 +677,26 @@ class World:
 
     def _emit(self, **ev):
         ev['files'] = self.files()
+        if ev['op'] in ('read', 'readone'):
+            # (for the finding keys only) the way each absent / unreadable file got that way
+            ev['how'] = [self.how.get(t, '') if f[0] in ('absent', 'unreadable') else '' for t, f in enumerate(ev['files'], 1)]
         self.log.append(ev)
         return ev
+
+    def _blame(self, ex):
+        """(for the finding keys only) the task whose file an OSError names, the errno."""
+        import errno
+        out = {}
+        if isinstance(ex, OSError):
+            out['errno'] = errno.errorcode.get(ex.errno, str(ex.errno))
+            try:
+                fn = os.fsdecode(ex.filename)
+                for t in range(1, self.ntasks + 1):
+                    if fn == self.path(t) or os.path.abspath(fn) == self.path(t):
+                        out['culprit'] = t
+            except Exception:  # pylint: disable=broad-except
+                pass
+        return out
 
     def _identify(self, t, entry):
         """(status name, ver) of an entry that came back from the disk; ver = -1 when it is not
@@ -585,7 +730,7 @@ class World:
             entry['start_clock'] = 1.5 * self.nver
             entry['end_clock'] = 1.5 * self.nver + 0.25
         if has_dir:
-            entry['output_dir'] = os.path.join(self.root, 't%d' % t)
+            entry['output_dir'] = self.dir(t)
         ver = self._register(t, status, has_dir, entry)
         self.mem[t] = (ver, entry)
         self._emit(op='run', t=t, status=status, ver=ver, dir=bool(has_dir))
@@ -620,7 +765,7 @@ class World:
         from valjean.cambronne.common import write_env
         env = envmod.Env()
         for t in order:
-            env['t%d' % t] = self.mem[t][1]
+            env[self.name(t)] = self.mem[t][1]
         for t in order:
             ver, entry = self.mem[t]
             if 'output_dir' in entry:
@@ -630,7 +775,7 @@ class World:
         before = {t: self.classify(t) for t in order}
         hooks = _OpenHooks(self, targets, k)
         raised = None
-        with hooks:
+        with _Unreadable(self), hooks:
             try:
                 write_env(env, filename=FILENAME, fmt='pickle')
             except _Crash:
@@ -711,10 +856,60 @@ class World:
         if had:
             self._emit(op='exit')
 
+    def longname(self, t, how):
+        """Task t, which has no history yet, gets a name that the file system does not accept (names are generated from
+        parameter lists): one component longer than NAME_MAX, or a path longer than PATH_MAX.  Its file can never
+        exist: class `unreadable` (it cannot be written either) from now on."""
+        if t in self.stuck or self.byt.get(t) or self.mem or self.loaded or self.classify(t)[0] != 'absent':
+            return False
+        if how == 'name-max':
+            name = 't%d.' % t + '.'.join('param%02d=value%02d' % (i, i) for i in range(20))      # 300 bytes
+        else:
+            name = 't%d.' % t + '/'.join(['d' * 200] * 25)                                       # 5000 bytes
+        self.dirmap.pop(self.dir(t), None)
+        shutil.rmtree(self.dir(t), ignore_errors=True)
+        self.names[t - 1] = name
+        self.stuck[t] = self.how[t] = how
+        if self.classify(t)[0] != 'unreadable':
+            raise tlc.MachineryError('a task name of %d bytes (%s) does not make its file unreachable' % (len(name), how))
+        self._emit(op='fault', t=t, kind='unreadable', which=0)
+        return True
+
+    def _clear(self, t):
+        """Back to: the task directory is a directory one can work in, nothing is where the file should be."""
+        self.sim.pop(t, None)
+        self.how.pop(t, None)
+        self.wrote.pop(t, None)
+        self.placed.pop(t, None)
+        d, p = self.dir(t), self.path(t)
+        if os.path.islink(d) or os.path.isfile(d):
+            os.remove(d)
+        if not os.path.isdir(d):
+            os.makedirs(d)
+        os.chmod(d, 0o755)
+        if os.path.islink(p) or os.path.isfile(p):
+            os.remove(p)
+        elif os.path.isdir(p):
+            shutil.rmtree(p)
+        target = os.path.join(self.links, 't%d' % t)
+        if os.path.lexists(target):
+            os.remove(target)
+
+    def _how(self, kind, which):
+        """The way in which the file is made absent / unreadable: `which` (swept / random like the garbage sample) and
+        the seed of the world select it."""
+        if kind == 'absent':
+            return ABSENT_HOW[(which + self.seed) % len(ABSENT_HOW)]
+        hows = UNREADABLE_HOW + UNREADABLE_HOW_NOT_ROOT
+        how = hows[(which + self.seed) % len(hows)]
+        if how in UNREADABLE_HOW_NOT_ROOT and os.geteuid() == 0:
+            how = UNREADABLE_HOW[(which + self.seed) % len(UNREADABLE_HOW)]       # (no permission stops root)
+        return how
+
     def fault(self, t, kind, which=0):
         p = self.path(t)
         cur = self.classify(t)
-        if cur[0] == kind:
+        if cur[0] == kind or t in self.stuck:
             return False
         if kind == 'partial':
             # a file cut short: a strict, non-empty prefix of the complete file that is there
@@ -730,12 +925,7 @@ class World:
             self.placed.pop(t, None)
             self._emit(op='fault', t=t, kind=kind, which=which)
             return True
-        self.wrote.pop(t, None)
-        self.placed.pop(t, None)
-        if os.path.islink(p) or os.path.isfile(p):
-            os.remove(p)
-        elif os.path.isdir(p):
-            shutil.rmtree(p)
+        self._clear(t)
         if kind == 'empty':
             open(p, 'wb').close()
         elif kind == 'garbage':
@@ -744,8 +934,33 @@ class World:
                 f.write(self.placed[t])
         elif kind == 'dir':
             os.mkdir(p)
+        elif kind == 'absent':
+            how = self.how[t] = self._how(kind, which)
+            if how == 'dangling-link':
+                os.makedirs(self.links, exist_ok=True)
+                os.symlink(os.path.join(self.links, 't%d' % t), p)      # nothing there: ENOENT; a write creates the target
         elif kind == 'unreadable':
-            os.symlink(FILENAME, p)          # a link to itself: ELOOP for every open
+            how = self.how[t] = self._how(kind, which)
+            if how == 'link-loop':
+                os.symlink(FILENAME, p)          # a link to itself: ELOOP for every stat / open
+            elif how == 'task-dir-is-a-file':
+                os.rmdir(self.dir(t))
+                with open(self.dir(t), 'wb') as f:      # ENOTDIR
+                    f.write(b'not a directory\n')
+            elif how == 'no-task-dir':
+                os.rmdir(self.dir(t))            # ENOENT for the directory: nothing can be created either
+            elif how.startswith('errno-'):
+                self.sim[t] = how[len('errno-'):]
+            elif how == 'mode-000':
+                with open(p, 'wb') as f:
+                    f.write(b'not for you\n')
+                os.chmod(p, 0)                   # EACCES for open
+            elif how == 'dir-mode-000':
+                os.chmod(self.dir(t), 0)         # EACCES for stat and open
+            else:
+                raise tlc.MachineryError('unknown way of making a file unreadable: %r' % how)
+        if self.classify(t)[0] != kind:
+            raise tlc.MachineryError('fault %s (%s) on task %d left the file %s' % (kind, self.how.get(t), t, self.classify(t)))
         self._emit(op='fault', t=t, kind=kind, which=which)
         return True
 
@@ -753,10 +968,11 @@ class World:
         from valjean.cambronne.common import read_env
         self.n_reads += 1
         try:
-            env = read_env(root=self.root, names=list(self.names), filename=FILENAME, fmt='pickle')
+            with _Unreadable(self):
+                env = read_env(root=self.root, names=list(self.names), filename=FILENAME, fmt='pickle')
         except Exception as ex:  # pylint: disable=broad-except
             self.mem, self.loaded = {}, False
-            return self._emit(op='read', raised=True, exc=type(ex).__name__, env=[])
+            return self._emit(op='read', raised=True, exc=type(ex).__name__, env=[], **self._blame(ex))
         obs = []
         self.mem, self.loaded = {}, False
         for name, entry in env.items():
@@ -772,14 +988,16 @@ class World:
         from valjean.cosette.env import Env
         self.n_reads += 1
         try:
-            env = Env.from_file(self.path(t), fmt='pickle')
+            with _Unreadable(self):
+                env = Env.from_file(self.path(t), fmt='pickle')
         except Exception as ex:  # pylint: disable=broad-except
-            return self._emit(op='readone', t=t, raised=True, exc=type(ex).__name__, present=False, status='WAITING', ver=0)
+            return self._emit(op='readone', t=t, raised=True, exc=type(ex).__name__, present=False, status='WAITING', ver=0,
+                              **self._blame(ex))
         if env is None:
             return self._emit(op='readone', t=t, raised=False, exc='', present=False, status='WAITING', ver=0)
         status, ver = 'WAITING', -1
-        if isinstance(env, Env) and list(env.keys()) == ['t%d' % t]:
-            status, ver = self._identify(t, env['t%d' % t])
+        if isinstance(env, Env) and list(env.keys()) == [self.name(t)]:
+            status, ver = self._identify(t, env[self.name(t)])
         return self._emit(op='readone', t=t, raised=False, exc='', present=True, status=status, ver=ver)
 
     def session(self, tasks, listed=None, workers=1):
@@ -809,7 +1027,7 @@ class World:
             ppath = os.path.join(aux, 'p%d_%d.pkl' % (self.nsession, ts['t']))
             with open(ppath, 'wb') as f:
                 pickle.dump(payload, f)
-            specs.append(dict(t=ts['t'], name='t%d' % ts['t'], hard=list(ts['hard']), soft=list(ts['soft']), dir=bool(ts['dir']),
+            specs.append(dict(t=ts['t'], name=self.name(ts['t']), hard=list(ts['hard']), soft=list(ts['soft']), dir=bool(ts['dir']),
                               beh=ts['beh'], payload=ppath))
         listed = [ts['t'] for ts in tasks] if listed is None else list(listed)
         specfile = os.path.join(aux, 'spec%d.json' % self.nsession)
@@ -830,8 +1048,9 @@ class World:
         # in a daemon thread (the workers of the scheduler inherit the flag): a session that never comes back must not
         # hang the check
         th = threading.Thread(target=target, daemon=True)
-        th.start()
-        th.join(SESSION_TIMEOUT)
+        with _Unreadable(self):
+            th.start()
+            th.join(SESSION_TIMEOUT)
         if th.is_alive() or 'ex' in box:
             # not what C14 is about (C02/C03/C19): the history ends here
             what = 'did not come back within %d s' % SESSION_TIMEOUT if th.is_alive() else \
@@ -883,6 +1102,8 @@ class World:
                 self.exit()
             elif op == 'fault':
                 self.fault(ev['t'], ev['kind'], ev.get('which', 0))
+            elif op == 'longname':
+                self.longname(ev['t'], ev['how'])
             elif op == 'read':
                 self.read()
             elif op == 'readone':
@@ -934,8 +1155,8 @@ def validate_logs(logs, ntasks, wd, ctx=None, name='PersistTrace', chunk=60000):
             events.append(dict(op='reset', tid=tid, step=0, seen=True, files=[['absent', 'WAITING', 0]] * ntasks))
             for step, ev in enumerate(_fill_files(log, ntasks), 1):
                 e = dict(ev, tid=tid, step=step)
-                e.pop('exc', None)
-                e.pop('which', None)
+                for k in ('exc', 'which', 'how', 'errno', 'culprit'):
+                    e.pop(k, None)
                 events.append(e)
         bwd = os.path.join(wd, '%s_batch%d_%d' % (name.replace('/', '_'), bi, len(events)))
         os.makedirs(bwd, exist_ok=True)
@@ -970,11 +1191,20 @@ def validate_logs(logs, ntasks, wd, ctx=None, name='PersistTrace', chunk=60000):
 # ---------------------------------------------------------------------------------------------
 # finding classes
 
-def _culprit(files):
-    """read_env stops at the first file it cannot digest: its kind names the class."""
-    for kind, _s, _v in files:
-        if kind in ('empty', 'partial', 'garbage'):
-            return kind
+def _file_class(ev, t):
+    how = ev.get('how') or []
+    return how_class(ev['files'][t - 1][0], how[t - 1] if t <= len(how) else '')
+
+
+def _culprit(ev):
+    """read_env stops at the first file it cannot digest: its class names the finding class -- the file the exception names
+    when it names one, else the first damaged file."""
+    if ev.get('culprit'):
+        return _file_class(ev, ev['culprit'])
+    for wanted in (('empty', 'partial', 'garbage'), ('unreadable', 'dir')):
+        for t, (kind, _s, _v) in enumerate(ev['files'], 1):
+            if kind in wanted:
+                return _file_class(ev, t)
     return 'none'
 
 
@@ -984,8 +1214,8 @@ def vkey(ev, clauses, suffix=''):
     op = 'read_env' if ev['op'] == 'read' else 'from_file' if ev['op'] == 'readone' else ev['op']
     if ev.get('raised'):
         if ev['op'] == 'readone':
-            return 'C14/%s-raises/%s%s' % (op, ev['files'][ev['t'] - 1][0], suffix)
-        return 'C14/%s-raises/%s%s' % (op, _culprit(ev['files']), suffix)
+            return 'C14/%s-raises/%s%s' % (op, _file_class(ev, ev['t']), suffix)
+        return 'C14/%s-raises/%s%s' % (op, _culprit(ev), suffix)
     if ev['op'] == 'nodir-written' or 'NoDirNeverWritten' in clauses:
         return 'C14/task-without-output-dir-written' + suffix
     return 'C14/%s-wrong/%s%s' % (op, '+'.join(sorted(c for c in clauses if c != 'Files')) or 'Files', suffix)
@@ -993,7 +1223,8 @@ def vkey(ev, clauses, suffix=''):
 
 def _report(ctx, ev, clauses, events, ntasks, seed, suffix=''):
     what = '%s: clauses %s false; observed %s' % (
-        ev['op'], sorted(clauses), {k: ev[k] for k in ('raised', 'exc', 'env', 'present', 'status', 'ver', 'files') if k in ev})
+        ev['op'], sorted(clauses), {k: ev[k] for k in ('raised', 'exc', 'errno', 'env', 'present', 'status', 'ver', 'files', 'how')
+                                    if k in ev and (k != 'how' or any(ev[k]))})
     ctx.violation(vkey(ev, clauses, suffix), what, dict(ntasks=ntasks, seed=seed, events=events), module='conf_persist')
 
 
@@ -1032,8 +1263,9 @@ def replay_case(case):
         return True, 'all clauses of Persist.tla hold on the %d logged events' % len(world.log)
     (_tid, step), clauses = bad[0]
     ev = world.log[step - 1]
-    return False, 'event %d (%s): clauses %s false; observed raised=%s exc=%s env=%s files=%s' % (
-        step, ev['op'], sorted(clauses), ev.get('raised'), ev.get('exc'), ev.get('env'), ev.get('files'))
+    return False, 'event %d (%s): clauses %s false; observed raised=%s exc=%s %s env=%s files=%s how=%s' % (
+        step, ev['op'], sorted(clauses), ev.get('raised'), ev.get('exc'), ev.get('errno', ''), ev.get('env'), ev.get('files'),
+        [h for h in ev.get('how', ()) if h])
 
 
 # ---------------------------------------------------------------------------------------------
@@ -1055,7 +1287,7 @@ def probe_modes(seed):
                    dict(op='run', t=1, status='DONE', dir=True), dict(op='write', order=[1], crash=dict(tasks=[1], k=0))])
     kind = world.classify(1)[0]
     died = world.log[-1]['op'] == 'crash'
-    shutil.rmtree(world.root, ignore_errors=True)
+    world.dispose()
     if not died:
         return list(MODES), False
     return (['keep'] if kind == 'full' else ['inplace'] if kind == 'empty' else list(MODES)), True
@@ -1170,6 +1402,23 @@ def _state_files(st, ntasks):
     return [[_at(st['file'], t)['kind'], _at(st['file'], t)['status'], _at(st['file'], t)['ver']] for t in range(1, ntasks + 1)]
 
 
+def bystanders(seed, used, width):
+    """Events that make the file of a task that the history itself does not use unreachable (a task name longer than the
+    file system accepts / one of the ways of fault `unreadable`): every read_env of the history then also passes a path
+    that cannot be walked.  One world in four stays as it was."""
+    if width <= used:
+        return []
+    t = used + 1 + (seed // 4) % (width - used)
+    choice = seed % 4
+    if choice == 1:
+        return [dict(op='longname', t=t, how='name-max')]
+    if choice == 2:
+        return [dict(op='longname', t=t, how='path-max')]
+    if choice == 3:
+        return [dict(op='fault', t=t, kind='unreadable', which=seed // 4)]
+    return []
+
+
 def replay_behaviour(ctx, beh, ntasks, seed, sweeps, stats, keep):
     """Run one TLC behaviour on the real code (several byte-length choices); compare with TLC's states as long as the
     implementation makes the choices TLC made (the specification is a relation: another order of the files, another
@@ -1185,7 +1434,8 @@ def replay_behaviour(ctx, beh, ntasks, seed, sweeps, stats, keep):
     for sweep in range(nsweeps):
         world = World(WIDTH, seed)
         concrete = _concretise([e for e, _ in evs], sweep)
-        done = []
+        done = bystanders(seed + sweep, ntasks, WIDTH)
+        world.execute(done)
         for ev, (_e, si) in zip(concrete, evs):
             if ev['op'] == 'write' and ev['crash']:
                 _resolve_k(world, ev, nsweeps)
@@ -1214,10 +1464,10 @@ def replay_behaviour(ctx, beh, ntasks, seed, sweeps, stats, keep):
                 if got != (bool(exp['raised']), bool(exp['present']), exp['status'], exp['ver']):
                     problems.append('lastOne')
             if problems:
-                lastev = dict(last)
-                lastev['files'] = obs_files
+                lastev = dict(last)          # (with the files of all tasks of the world, bystanders included)
                 what = ('after %s the real world differs from the TLC state in %s: observed %s; Persist.tla: files=%s lastRead=%s lastOne=%s'
-                        % (ev['op'], problems, {k: lastev.get(k) for k in ('raised', 'exc', 'env', 'present', 'status', 'ver', 'files')},
+                        % (ev['op'], problems, {k: lastev.get(k) for k in ('raised', 'exc', 'errno', 'env', 'present', 'status', 'ver',
+                                                                            'files', 'how')},
                            _state_files(st, ntasks), dict(st['lastRead']), dict(st['lastOne'])))
                 ctx.violation(vkey(lastev, problems), what, dict(ntasks=WIDTH, seed=seed, events=done), module='conf_persist')
                 break
@@ -1225,7 +1475,7 @@ def replay_behaviour(ctx, beh, ntasks, seed, sweeps, stats, keep):
         kinds = tuple(sorted(set(f[0] for ev in world.log if ev['op'] in ('read', 'readone') for f in ev['files'])))
         if has_read and any(k in kinds for k in ('empty', 'partial', 'garbage', 'dir', 'unreadable')):
             ctx.distinct(('beh', tuple(json.dumps(e, sort_keys=True) for e in concrete)))
-        shutil.rmtree(world.root, ignore_errors=True)
+        world.dispose()
         if sweep < 6:
             keep.append(world)
     return runs, len(evs)
@@ -1238,8 +1488,12 @@ def scan_every_byte(seed, ntasks, n_payloads, statuses):
     """For n_payloads entries: a crash after every possible number of bytes of the file, then
     read_env and Env.from_file.  One world (= one trace) per payload."""
     worlds = []
+    nhow = len(UNREADABLE_HOW + UNREADABLE_HOW_NOT_ROOT)
     for p in range(n_payloads):
-        world = World(ntasks, seed * 1000 + p)
+        # one more task than the scan uses: in two worlds out of three its name is longer than the file system accepts
+        world = World(ntasks + 1, seed * 1000 + p)
+        if p % 3:
+            world.execute([dict(op='longname', t=ntasks + 1, how=LONG_NAMES[p % 3 - 1])])
         rng = random.Random('scan/%d/%d' % (seed, p))
         t = rng.randint(1, ntasks)
         status = statuses[p % len(statuses)]
@@ -1259,6 +1513,15 @@ def scan_every_byte(seed, ntasks, n_payloads, statuses):
                 world.execute([dict(op='exit'), dict(op='run', t=t, status=status, dir=True, pid=p), dict(op='write', order=[t]),
                                dict(op='exit'), dict(op='fault', t=t, kind='partial' if k else 'empty', which=k - 1)])
             world.execute([dict(op='read'), dict(op='exit'), dict(op='readone', t=t)])
+        # every way in which the path of the file can be unusable (and a file that is not there at all): read, written
+        # over (the entry is given up or the object is replaced), read again
+        world.execute([dict(op='run', t=t, status=status, dir=True, pid=p), dict(op='write', order=[t]), dict(op='exit')])
+        for which in range(nhow + len(ABSENT_HOW)):
+            kind = 'unreadable' if which < nhow else 'absent'
+            world.execute([dict(op='fault', t=t, kind=kind, which=which), dict(op='read'), dict(op='exit'), dict(op='readone', t=t),
+                           dict(op='run', t=t, status='DONE', dir=True, pid=p), dict(op='write', order=[t]), dict(op='exit'),
+                           dict(op='read'), dict(op='exit'), dict(op='readone', t=t), dict(op='fault', t=t, kind='empty')])
+        world.execute([dict(op='readone', t=ntasks + 1)])          # (the file that cannot exist / that never existed)
         world.scan = (t, status, length)
         worlds.append(world)
     return worlds
@@ -1270,6 +1533,12 @@ def random_history(seed, idx, ntasks, length):
 
     def do(ev):
         world.execute([ev])
+
+    # in one history out of three the name of one task is longer than the file system accepts (its own generator: the
+    # histories stay what they were)
+    rng_names = random.Random('hist-names/%d/%d' % (seed, idx))
+    if rng_names.random() < 1 / 3:
+        do(dict(op='longname', t=rng_names.randint(1, ntasks), how=rng_names.choice(LONG_NAMES)))
 
     for _ in range(length):
         fresh = not world.mem
@@ -1312,11 +1581,12 @@ def random_history(seed, idx, ntasks, length):
 PAIRS3 = [(2, 1), (3, 1), (3, 2)]
 
 
-def _session_event(n, edges, dirs, behs, rng=None, workers=1):
-    """edges: [(i, j, 'hard'|'soft')], task i depends on task j < i."""
+def _session_event(n, edges, dirs, behs, rng=None, workers=1, extra=()):
+    """edges: [(i, j, 'hard'|'soft')], task i depends on task j < i; extra: more tasks, independent of the others."""
     tasks = [dict(t=t, hard=[j for i, j, k in edges if i == t and k == 'hard'], soft=[j for i, j, k in edges if i == t and k == 'soft'],
                   dir=bool(dirs[t - 1]), beh=behs[t - 1]) for t in range(1, n + 1)]
-    listed = list(range(1, n + 1))
+    tasks += [dict(t=t, hard=[], soft=[], dir=True, beh='ok') for t in extra]
+    listed = list(range(1, n + 1)) + list(extra)
     if rng is not None:
         rng.shuffle(listed)
     return dict(op='session', tasks=tasks, listed=listed, workers=workers)
@@ -1341,7 +1611,7 @@ def systematic_sessions(seed, quick):
     worlds = []
     idx = combo = 0
     graphs = list(itertools.product(['none', 'hard', 'soft'], repeat=3))
-    damages = ['absent', 'partial', 'empty', 'garbage']
+    damages = ['absent', 'partial', 'empty', 'garbage', 'unreadable', 'dir']
     for kinds in graphs:
         edges = [(i, j, kd) for (i, j), kd in zip(PAIRS3, kinds) if kd != 'none']
         for damaged in (1, 2, 3):
@@ -1353,12 +1623,16 @@ def systematic_sessions(seed, quick):
                         continue
                     world = World(WIDTH, seed * 7001 + idx)
                     behs = ['ok'] * 3
-                    evs = [_session_event(3, edges, [True] * 3, behs, workers=1 + idx % 2)]
+                    # in one world out of four the job has a fourth task, whose name is longer than the file system accepts
+                    # (it can have no output directory, hence no file: read_env of every session passes its path)
+                    extra = [4] if combo % 4 == 0 else []
+                    evs = [dict(op='longname', t=4, how=LONG_NAMES[(combo // 4) % 2])] if extra else []
+                    evs.append(_session_event(3, edges, [True] * 3, behs, workers=1 + idx % 2, extra=extra))
                     evs.append(dict(op='fault', t=damaged, kind=damages[idx % len(damages)], which=idx))
                     behs2 = list(behs)
                     behs2[failing - 1] = fail
-                    evs.append(_session_event(3, edges, [True] * 3, behs2, workers=1 + (idx // 2) % 2))
-                    evs += [dict(op='read'), dict(op='exit')] + [dict(op='readone', t=t) for t in (1, 2, 3)]
+                    evs.append(_session_event(3, edges, [True] * 3, behs2, workers=1 + (idx // 2) % 2, extra=extra))
+                    evs += [dict(op='read'), dict(op='exit')] + [dict(op='readone', t=t) for t in [1, 2, 3] + extra]
                     worlds.append(_run_sessions(world, evs))
     return worlds
 
@@ -1379,6 +1653,9 @@ def random_sessions(seed, idx):
     world = World(WIDTH, seed * 9001 + idx)
     world.kind = 'session'
     evs = []
+    rng_names = random.Random('sess-names/%d/%d' % (seed, idx))       # (its own generator: the histories stay what they were)
+    if rng_names.random() < 0.25:
+        evs.append(dict(op='longname', t=rng_names.randint(1, n), how=rng_names.choice(LONG_NAMES)))
     for s in range(rng.randint(2, 4)):
         p_ok = 0.9 if s == 0 else 0.65
         behs = [('ok' if rng.random() < p_ok else rng.choice(['ko', 'raise'])) for _ in range(n)]
@@ -1409,14 +1686,26 @@ def run_c14(ctx):
              'job file (every 3-task hard/soft graph x damaged file x failing task, and random 2-5 task graphs, 2-4 sessions, tasks '
              'that succeed / fail / raise / are skipped, files lost / cut short / corrupted in between) in which read_env at the '
              'start of the next session is judged against what the previous session ended with; TLC validates all logs against '
-             'PersistTrace.tla. distinct_nontrivial counts distinct (history, byte length) executions in which a read met at least '
-             'one empty, truncated, garbage, directory or unopenable file.')
+             'PersistTrace.tla. The class `unreadable` (and `absent`) of Persist.tla is produced THROUGH THE PATH of the file as '
+             'well as through its content: per fault the way is chosen among symbolic link loop / task directory replaced by a file / '
+             'task directory missing / (not as root) file or directory without permissions / every stat, access and open of the path '
+             'failing with OSError(errno) for errno in %s while valjean runs; dangling link for `absent`; task names longer than '
+             'NAME_MAX / paths longer than PATH_MAX (a third of the histories, a quarter of the session histories, bystander tasks of '
+             'the replayed behaviours and of the every-byte scan); every way is applied once per scanned payload (read, written '
+             'over, read again). distinct_nontrivial counts distinct (history, byte length) executions in which a read met at least '
+             'one empty, truncated, garbage, directory or unopenable file.' % ', '.join(SIM_ERRNOS))
     ctx.assume('a crash leaves, in the file being written, a prefix of the bytes of the new content, or the previous content, or the '
                'complete new content; all other files are untouched')
     ctx.assume('output_dir of task t is <root>/<t> (as RunTask sets it) and exists; distinct tasks have distinct directories')
     ctx.assume('garbage = curated families of non-pickles (text, zero/0xff blocks, foreign magic numbers, invalid first opcode, '
                'unknown globals); byte strings pickle.loads accepts are dropped (DESIGN 8.1); mutated real pickles are not used '
-               'because they can crash the interpreter; "unreadable" is a symbolic link loop (checks run as root)')
+               'because they can crash the interpreter')
+    ctx.assume('errno classes that cannot be provoked as root (EACCES, EPERM, EIO, ESTALE, EMFILE) are simulated: builtins.open / '
+               'io.open / os.open / os.stat / os.lstat raise OSError(errno) and os.access answers False for the path of the file, '
+               'recognised by the file name given to valjean and the real path of its directory; an implementation that reaches '
+               'the file in another way (descriptor of the directory, C extension) does not meet the simulated condition, it does '
+               'meet the real ones (link loop, ENOTDIR, ENOENT of the directory, ENAMETOOLONG)%s'
+               % ('' if os.geteuid() == 0 else '; the harness does not run as root: files / directories without permissions are used too'))
     seed = ctx.seed
     wd = tlc.workdir('c14')
     drifts = Drifts(ctx)
@@ -1487,7 +1776,7 @@ def run_c14(ctx):
     dbg('scan executed')
     # (TLC judges the scan in the background while the histories are executed)
     scan_pool = ThreadPoolExecutor(max_workers=1)
-    scan_job = scan_pool.submit(validate_logs, [(i + 1, w.log) for i, w in enumerate(worlds)], 2, wd, ctx, 'PersistTrace/every-byte')
+    scan_job = scan_pool.submit(validate_logs, [(i + 1, w.log) for i, w in enumerate(worlds)], 3, wd, ctx, 'PersistTrace/every-byte')
     nhist = ctx.pick(300, 4000)
     hworlds = [random_history(seed, i, WIDTH, ctx.pick(40, 60)) for i in range(nhist)]
     dbg('histories executed')
@@ -1497,12 +1786,14 @@ def run_c14(ctx):
     verdict, nev = scan_job.result()
     scan_pool.shutdown()
     dbg('scan validated')
-    _digest(ctx, drifts, verdict, worlds, 2)
+    _digest(ctx, drifts, verdict, worlds, 3)
     ctx.count(evaluations=sum(w.n_reads for w in worlds), traces=len(worlds))
     for w in worlds:
         for k in range(w.scan[2]):
             ctx.distinct(('scan', w.seed, k))
-        shutil.rmtree(w.root, ignore_errors=True)
+        for how in sorted(set(h for ev in w.log if ev['op'] == 'read' for h in ev['how'] if h)):
+            ctx.distinct(('scan-how', w.seed, how))
+        w.dispose()
     ctx.sample(dict(source='every-byte scan', payloads=n_payloads, truncated_files_read=nbytes, events_validated_by_TLC=nev,
                     first_log=worlds[0].log[:8]))
     allw = hworlds + sworlds + rworlds
@@ -1516,7 +1807,7 @@ def run_c14(ctx):
             if ev['op'] in ('read', 'readone') and any(f[0] in ('empty', 'partial', 'garbage', 'dir', 'unreadable') for f in ev['files']):
                 ctx.distinct(('hist', i, len(w.log)))
                 break
-        shutil.rmtree(w.root, ignore_errors=True)
+        w.dispose()
     ctx.sample(dict(source='random history', events=hworlds[0].abstract[:10]))
     ctx.sample(dict(source='sessions of RunCommand.execute', events=sworlds[-1].abstract[:6], log=sworlds[-1].log[:14]))
     unreached = sum(w.unreached for w in worlds + allw)
